@@ -28,9 +28,13 @@ Definition xltb (a b : xnum) : bool :=
 Definition py_min (a b : xnum) : xnum := if xltb b a then b else a.
 Definition py_max (a b : xnum) : xnum := if xltb a b then b else a.
 
+(** numpy.minimum / numpy.maximum: a NaN on either side propagates (Statistics.__add__ since fix 3836edd in /repo;
+    before, python's min/max kept the first argument when the second one was NaN) *)
+Definition np_min (a b : xnum) : xnum := match a, b with NaN, _ | _, NaN => NaN | _, _ => py_min a b end.
+Definition np_max (a b : xnum) : xnum := match a, b with NaN, _ | _, NaN => NaN | _, _ => py_max a b end.
 Definition stats_add (a b : stats) : stats :=
-  mkStats (xadd (st_sum a) (st_sum b)) (xadd (st_sum2 a) (st_sum2 b)) (py_min (st_min a) (st_min b))
-          (py_max (st_max a) (st_max b)) (xadd (st_weight a) (st_weight b)) NaN.
+  mkStats (xadd (st_sum a) (st_sum b)) (xadd (st_sum2 a) (st_sum2 b)) (np_min (st_min a) (st_min b))
+          (np_max (st_max a) (st_max b)) (xadd (st_weight a) (st_weight b)) NaN.
 (** Statistics.__mul__: sum, sum2 and weight are linear in the weights *)
 Definition stats_mul (a : stats) (c : Qc) : stats :=
   mkStats (xscale c (st_sum a)) (xscale c (st_sum2 a)) (st_min a) (st_max a) (xscale c (st_weight a)) (st_median a).
